@@ -5,7 +5,7 @@
 From Coq Require Import Ascii String List Bool Arith ZArith NArith.
 From PTBase Require Import Exn PyStr PyNum PyVal.
 From PTModel Require Import Fortran.
-From P Require Import Model Layout Cells Tokens Table Witness.
+From P Require Import Model Layout Cells Tokens Table Start Witness.
 Import ListNotations.
 Open Scope char_scope.
 
@@ -48,6 +48,27 @@ Theorem start_of_values_fixed_then_negative_refuted :
             py_eqb (hd zero (read_table_line_TOUGH2 rowneg 10 l)) (fortran_float (s2l "101300.00") zero) = false.
 Proof. exact rowneg_start_inside_first_number. Qed.
 Print Assumptions start_of_values_fixed_then_negative_refuted.
+
+(** where the values start, on the first row of a table: (1) the first number's own tail carries
+    the exponent marker (e/E, + or -): the start is the blank or minus sign two before the point,
+    or the character before the point when the index abuts the number *)
+Theorem start_of_values_exponential_first_number : forall pre c d fr x y rest,
+  no "." pre -> c <> "." -> d <> "." -> no "." fr -> x <> "." -> y <> "." -> marker x ->
+  start_of_values_nat (pre ++ c :: d :: "." :: fr ++ x :: y :: rest)
+  = if ceqb c "-" || ceqb c " " then Some (length pre) else if is_digit c then Some (length pre + 1) else None.
+Proof. exact start_exponential. Qed.
+Print Assumptions start_of_values_exponential_first_number.
+
+(** (2) a fixed-point first number, blank-separated from the index, with nothing exponent-like
+    between the first two points (this is the guard the finding above violates): the start is
+    the character after the index *)
+Theorem start_of_values_fixed_point_first_number : forall A b k num seg z tl2,
+  A <> [] -> b <> " " -> 1 <= k -> num <> [] -> no " " num ->
+  no "." (A ++ b :: spaces k ++ num) -> no "." seg -> z <> "." -> Forall (fun ch => ~ marker ch) seg ->
+  (tl2 = [] \/ exists t, tl2 = "." :: t) ->
+  start_of_values_nat (A ++ b :: spaces k ++ num ++ "." :: seg ++ z :: tl2) = Some (length A + 1).
+Proof. exact start_fixed_point. Qed.
+Print Assumptions start_of_values_fixed_point_first_number.
 
 (** Under a layout with field ends e1..en every row rendered with the same widths decodes, cell by
     cell, to what [fortran_float] assigns to the cell's text (any text: negative, zero, 3-digit
